@@ -888,7 +888,8 @@ def corpus_cases():
 def run_chunk(ctx, n_cases, n_dedup):
     rng = ctx.rng
     if getattr(ctx, 'chunk', 0) == 0:
-        replay_witness_p(ctx)
+        replay_witness(ctx, 'P')
+        replay_witness(ctx, 'P2')
         for c in corpus_cases():
             ctx.count('engine-dup', 'corpus')
             c = dict(c)
@@ -1207,20 +1208,31 @@ def run_start_ids_fixed(ctx, ids, seed=0, drains=None):
             {'stream': 'dedup', 'ids': ids}, {'kind': 'dup-not-noop', 'message': 'start_workflow'})
 
 
-# ================================================================================ witness of Props.C06.dup_start_task_rerun_full_fails
+# ================================================================================ witnesses about first_run=False start requests
+# (1) the FORMER counter-witness (before repo fix 258aaaae): the duplicate arrives while the action of the
+#     first delivery is running.  Now a regression that must PASS (Props.C06.dup_start_task_rerun_noop).
 WITNESS_P = [{'op': 'startTask', 'firstRun': True, 'reset': False},
              {'op': 'result', 'a': 0, 'kind': 'error', 'tag': 3},
              'rerun',
              {'op': 'startTask', 'firstRun': False, 'reset': False, 'j': 0},
              {'op': 'startTask', 'firstRun': False, 'reset': False, 'j': 0}]
+# (2) the counter-witness of Props.C06.dup_start_task_rerun_full_fails: the restarted task fails again, then
+#     the same request arrives once more.
+WITNESS_P2 = [{'op': 'startTask', 'firstRun': True, 'reset': False},
+              {'op': 'result', 'a': 0, 'kind': 'error', 'tag': 3},
+              'rerun',
+              {'op': 'startTask', 'firstRun': False, 'reset': False, 'j': 0},
+              {'op': 'result', 'a': 1, 'kind': 'error', 'tag': 4},
+              {'op': 'startTask', 'firstRun': False, 'reset': False, 'j': 0}]
+WITNESSES = {'P': WITNESS_P, 'P2': WITNESS_P2}
 
 
-def replay_witness_p(ctx):
-    """The Lean counter-witness (an ERROR task, one rerun start request delivered twice) on the real
-    engine: the second delivery schedules a second action execution."""
+def replay_witness(ctx, name):
+    """A witness about a repeated start_task(first_run=False) request on the real engine, compared with the
+    model; the monitor reads the statement on the LAST event (a repeated delivery): it must not dispatch."""
     impl = DedupImpl(seed=0)
     evs, obs = [], []
-    for ev in WITNESS_P:
+    for ev in WITNESSES[name]:
         if ev == 'rerun':
             impl.w.op('rerun_workflow', impl.t1, reset=False)
             impl.settle()
@@ -1229,16 +1241,21 @@ def replay_witness_p(ctx):
         evs.append(ev)
     mo = ctx.driver().call('dedup.trace', {'deliveries': evs})
     mo = [{'verdict': {'accepted': 'ok', 'noop': 'ok'}.get(x['verdict'], x['verdict']), 'task': x['task']} for x in mo]
-    ctx.evaluated('dedup', ['witness-P'], nontrivial=True)
-    ctx.count('dedup', 'witness-P')
+    ctx.evaluated('dedup', ['witness-' + name], nontrivial=True)
+    ctx.count('dedup', 'witness-' + name)
     if mo != obs:
-        ctx.disagree('dedup', {'events': evs, 'witness': 'P'}, mo, obs)
+        ctx.disagree('dedup', {'events': evs, 'witness': name}, mo, obs)
     last, prev = obs[-1]['task'], obs[-2]['task']
     if last['dispatched'] > prev['dispatched'] or len(last['actions']) > len(prev['actions']):
-        ctx.violation('a start_task(first_run=False) request delivered twice dispatches the action twice '
+        ctx.violation('a start_task(first_run=False) request delivered again (task %s) dispatches the action again '
                       '(dispatched %d -> %d, action executions %d -> %d)' % (
-                          prev['dispatched'], last['dispatched'], len(prev['actions']), len(last['actions'])),
-                      {'stream': 'dedup', 'witness': 'P', 'events': WITNESS_P, 'observed': obs},
+                          prev['state'], prev['dispatched'], last['dispatched'], len(prev['actions']),
+                          len(last['actions'])),
+                      {'stream': 'dedup', 'witness': name, 'events': WITNESSES[name], 'observed': obs},
                       {'kind': 'dup-start-task-existing-reschedules', 'task_state': prev['state']})
         return True
     return False
+
+
+def replay_witness_p(ctx):
+    return replay_witness(ctx, 'P')
